@@ -247,6 +247,16 @@ Lemma c13_repaired_samples :
   c13 (run repaired [Start KSingle (Some 0); CliPoll 0; DrvScrub; DrvOp]) = true.
 Proof. vm_compute. repeat split. Qed.
 
+(* F22 (known finding, the wrap-around regime): the driver releases a search's id when it routes the SearchResultDone (repair F8); a caller
+   that has not read that far and calls finish() sends a scrub for that id all the same; if the id has been re-issued in between - the counter
+   has come round: modelled by stepping [last] back - the stale scrub takes the reply sender of the operation that owns the id now *)
+Lemma c12_refuted_F22 :
+  let s0 := run repaired [Start (KSearch false) None; DrvOp; CliPoll 0; ServerSend (mkResp 1 RDone 1); DrvResp] in
+  let s1 := s0 <| last := 0 |> in
+  let s2 := fold_left step [Start KSingle None; DrvOp; StreamFinish 0; DrvScrub; CliPoll 1] s1 in
+  inuse s0 = [] /\ match getop s2 1 with Some c => o_mid c = 1 /\ o_status c = CErr EResultRecv | None => False end.
+Proof. vm_compute. repeat split. Qed.
+
 (* ---- bounded exploration inside the kernel: every schedule over a small alphabet, to a fixed depth ---- *)
 Definition alphabet : list ev :=
   [Start KSingle None; Start KSingle (Some 0); Start (KSearch true) None; Start (KSearch false) (Some 0); Start (KAbandon 1) None;
